@@ -28,6 +28,7 @@ pub mod syn {
     #[verifier::external_body] pub struct Path { _p: u8 }
     #[verifier::external_body] pub struct WherePredicate { _p: u8 }
     #[verifier::external_body] pub struct ItemEnum { _p: u8 }
+    #[verifier::external_body] pub struct Attribute { _p: u8 }
     #[verifier::external_body] pub struct FieldsNamed { _p: u8 }
     #[verifier::external_body] pub struct FieldsUnnamed { _p: u8 }
     pub use super::proc_macro2::Ident;
